@@ -85,4 +85,18 @@ def replacerCallSites : List (String × String × String × String) := [
     through the host matcher `hm` it walks (`hm, ok := m.(*MatchHost)` itself is a definition, not a store) -/
 def autoHTTPSHostMatcherStores : List String := []
 
+/-- every Replacer.Replace* call of autohttps.go, matchers.go, caddyauth/basicauth.go and app.go (modules/caddyhttp),
+    in source order: (file, function, method, first argument) -/
+def provisionReplacerCallSites : List (String × String × String × String) := [
+  ("autohttps.go", "automaticHTTPSPhase1", "ReplaceOrErr", "d"),
+  ("matchers.go", "MatchWithError", "ReplaceAll", "host"),
+  ("matchers.go", "MatchWithError", "ReplaceAll", "matchPattern"),
+  ("matchers.go", "MatchWithError", "ReplaceAll", "param"),
+  ("matchers.go", "MatchWithError", "ReplaceAll", "v"),
+  ("matchers.go", "matchHeaders", "ReplaceAll", "allowedFieldVal"),
+  ("basicauth.go", "Provision", "ReplaceAll", "acct.Username"),
+  ("basicauth.go", "Provision", "ReplaceAll", "acct.Password"),
+  ("app.go", "Provision", "ReplaceOrErr", "srv.Listen[i]")
+]
+
 end CaddyModel.Gen
